@@ -105,6 +105,10 @@ def apply_mod_to_spec(spec, mod):
         from ..paramworld import LeafModel
 
         path, rg, value = mod[1], mod[2], mod[3]
+        if len(mod) > 4 and mod[4] == "deep_edit":
+            # the value of one dated entry assigned in place
+            out["parameters"][path] = [[d, (value if d == rg["entry"] else v)] for d, v in out["parameters"][path]]
+            return out
         m = LeafModel(out["parameters"][path])
         from .c06_c07 import range_bounds
 
@@ -147,6 +151,10 @@ def gen_mod(rng, spec, protected, counter):
             # forward, an old one restored)
             value = pick(rng, held)
         mod = ["param", path, gen_range(rng, dates), value]
+        if chance(rng, 0.15):
+            # the value of an existing dated entry assigned in place
+            # (`parameter.values_list[i].value = x`, the repository's own "deep edit" idiom)
+            return ["param", path, {"entry": pick(rng, dates)}, value, "deep_edit"]
         if chance(rng, 0.15):
             # older packages reach the history through the parameter's `values_history` alias
             mod.append("values_history")
@@ -250,6 +258,19 @@ def generate(seed: int, tier: str) -> dict:
                 ops[-1]["do"].append(ext)
             specs[new], parents[new], kinds[new] = copy.deepcopy(specs[src]), src, "clone"
             has_derivative.add(src)
+            if len(ops[-1]["do"]) == 3 and chance(orr, 0.25):
+                # the copy is used first (its entities have resolved names, its views were
+                # read), and only then is one of its rules neutralised or annualised
+                cands = [w for w in specs[new]["variables"] if w["formulas"] and not w.get("neutralized") and not w.get("annualized")
+                         and w["name"] not in protected]
+                if cands:
+                    w = pick(orr, cands)
+                    m = ["annualize", w["name"]] if (w["unit"] == "month" and not w.get("end") and chance(orr, 0.4)) else ["neutralize", w["name"]]
+                    uses = [k for k, b in enumerate(battery) if b[1] == w["name"]] or [orr.randrange(len(battery))]
+                    ops.append({"actor": "E1", "do": ["evaluate", new, pick(orr, uses)]})
+                    ops.append({"actor": "M", "do": ["mutate", new, m]})
+                    specs[new] = apply_mod_to_spec(specs[new], m)
+                    evaluated.add(new)
         elif r < 0.5:
             src = pick(orr, ids)
             depth = 0
@@ -357,6 +378,9 @@ def do_mod(system, world: World, spec_before, mod, in_reform=True):
     elif kind == "param":
         def modifier(parameters, mod=mod):
             target = _get_param(parameters, mod[1])
+            if len(mod) > 4 and mod[4] == "deep_edit":
+                next(v for v in target.values_list if v.instant_str == mod[2]["entry"]).value = mod[3]
+                return parameters
             if len(mod) > 4 and mod[4] == "values_history":
                 target = target.values_history
             call_update(target, mod[2], mod[3])
